@@ -57,6 +57,7 @@ Resolve(prog, ip, buf) ==
          [] prog[ip] = "flush" -> [pc |-> "sendWrte", ip |-> ip, buf |-> buf, wait |-> "none"]
          [] prog[ip] = "readw" -> IF buf > 0 THEN Resolve(prog, ip + 1, buf - 1) ELSE [pc |-> "rd1", ip |-> ip, buf |-> buf, wait |-> "readw"]
          [] prog[ip] = "clse" -> [pc |-> "sendClse", ip |-> ip, buf |-> buf, wait |-> "none"]
+         [] prog[ip] = "raise" -> [pc |-> "raise", ip |-> ip, buf |-> buf, wait |-> "none"]    \* the call ends with an exception (push: FAIL status)
 Goto(t, ip, buf) == LET r == Resolve(Prog[t], ip, buf) IN [th[t] EXCEPT !.pc = r.pc, !.ip = r.ip, !.buf = r.buf, !.wait = r.wait]
 
 Expected(t) == CASE th[t].wait = "open" -> {"OKAY"}
@@ -134,7 +135,7 @@ Rd23(t) == /\ th[t].pc = "rd23" /\ tLock = "free" /\ A(t, "Rd23")
 Rd4(t) == /\ th[t].pc = "rd4" /\ d2h # <<>> /\ A(t, "Rd4")
           /\ LET p == Head(d2h) IN
              /\ d2h' = Tail(d2h) /\ tLock' = "free"
-             /\ mon' = MonRd(mon, [cmd |-> p.cmd, a0 |-> W(p.a0), a1 |-> W(p.a1)])
+             /\ mon' = MonRd(mon, [t |-> t, cmd |-> p.cmd, a0 |-> W(p.a0), a1 |-> W(p.a1)])
              /\ IF ~Match(t, p) THEN store' = Put(store, p) /\ th' = [th EXCEPT ![t].pc = "rd23"]
                 ELSE /\ store' = IF p.cmd = "CLSE" /\ <<p.a0, p.a1>> \in DOMAIN store THEN Remove(store, <<p.a0, p.a1>>) ELSE store
                      /\ th' = [th EXCEPT ![t] = IF p.cmd \in Expected(t) THEN Recv(t, p) ELSE [@ EXCEPT !.pc = "rd23"]]   \* unexpected: discarded
@@ -145,17 +146,25 @@ Return(t) == /\ th[t].pc = "ret" /\ th' = [th EXCEPT ![t].pc = "done"] /\ A(t, "
                                     units |-> [i \in 1..Len(th[t].got) |-> <<W(th[t].lid), th[t].got[i]>>]])
              /\ UNCHANGED <<nextId, tLock, store, d2h, h2d, dev>>
 
+\* the public call raises (e.g. PushFailedError after a FAIL status): no CLSE is sent, the stream is abandoned
+Raise(t) == /\ th[t].pc = "raise" /\ th' = [th EXCEPT ![t].pc = "done"] /\ A(t, "Return")
+            /\ mon' = MonExc(mon, [t |-> t, api |-> ApiOf(t), cls |-> "PushFailedError"])
+            /\ UNCHANGED <<nextId, tLock, store, d2h, h2d, dev>>
+
 (* ---------------------------------------------------------------- the device (adbd) *)
 Owner(l) == CHOOSE t \in Threads : th[t].lid = l
+\* service output is tagged with the number of the host WRITE that triggered it: adbd sends the OKAY for WRITE k
+\* before the service can answer WRITE k, but the answer may overtake the OKAY of any later WRITE
+Tag(tags, k) == [i \in 1..Len(tags) |-> <<tags[i], k>>]
 DevRecv == /\ h2d # <<>> /\ AD("recv", 0)
            /\ LET p == Head(h2d) l == p.a0 t == Owner(l) IN
               /\ h2d' = Tail(h2d)
               /\ CASE p.cmd = "OPEN" ->
                         dev' = [x \in DOMAIN dev \cup {l} |-> IF x = l THEN [st |-> "sendOkay", nwr |-> 0, okq |-> 0, wait |-> FALSE, sentn |-> 0,
-                                                                            outq |-> IF IsShell(t) THEN Replies[t][1] ELSE <<>>] ELSE dev[x]]
+                                                                            outq |-> IF IsShell(t) THEN Tag(Replies[t][1], 0) ELSE <<>>] ELSE dev[x]]
                    [] p.cmd = "OKAY" -> dev' = [dev EXCEPT ![l].wait = FALSE]
                    [] p.cmd = "WRTE" -> dev' = [dev EXCEPT ![l].nwr = @ + 1, ![l].okq = @ + 1,
-                                                          ![l].outq = @ \o (IF dev[l].nwr + 1 <= Len(Replies[t]) THEN Replies[t][dev[l].nwr + 1] ELSE <<>>)]
+                                                          ![l].outq = @ \o (IF dev[l].nwr + 1 <= Len(Replies[t]) THEN Tag(Replies[t][dev[l].nwr + 1], dev[l].nwr + 1) ELSE <<>>)]
                    [] p.cmd = "CLSE" -> dev' = [dev EXCEPT ![l].st = IF @ = "closing" THEN "closed" ELSE "sendClse"]
            /\ UNCHANGED <<th, nextId, tLock, store, d2h, mon>>
 DevPut(l, c, d) == /\ d2h' = Append(d2h, Pkt(c, Rid(l), l, d))
@@ -164,21 +173,21 @@ DevSend(l) == /\ l \in DOMAIN dev
               /\ LET s == dev[l] t == Owner(l) IN
                  \/ /\ s.st = "sendOkay" /\ DevPut(l, "OKAY", 0) /\ dev' = [dev EXCEPT ![l].st = "open"] /\ AD("okay", l)
                  \/ /\ s.st = "open" /\ s.okq > 0 /\ DevPut(l, "OKAY", 0) /\ dev' = [dev EXCEPT ![l].okq = @ - 1] /\ AD("okay", l)
-                 \/ /\ s.st = "open" /\ ~s.wait /\ s.outq # <<>>
+                 \/ /\ s.st = "open" /\ ~s.wait /\ s.outq # <<>> /\ Head(s.outq)[2] <= s.nwr - s.okq
                     /\ DevPut(l, "WRTE", s.sentn + 1) /\ dev' = [dev EXCEPT ![l].outq = Tail(@), ![l].wait = TRUE, ![l].sentn = @ + 1] /\ AD("data", l)
                  \/ /\ s.st = "open" /\ IsShell(t) /\ ~s.wait /\ s.outq = <<>>
                     /\ DevPut(l, "CLSE", 0) /\ dev' = [dev EXCEPT ![l].st = "closing"] /\ AD("data", l)
                  \/ /\ s.st = "sendClse" /\ DevPut(l, "CLSE", 0) /\ dev' = [dev EXCEPT ![l].st = "closed"] /\ AD("okay", l)
               /\ UNCHANGED <<th, nextId, tLock, store, h2d>>
 
-HostNext == \E t \in Threads : Alloc(t) \/ SendOpen(t) \/ SendWrte(t) \/ SendClse(t) \/ SendClseFinal(t) \/ Ack(t) \/ Rd1(t) \/ Rd23(t) \/ Rd4(t) \/ Return(t)
+HostNext == \E t \in Threads : Alloc(t) \/ SendOpen(t) \/ SendWrte(t) \/ SendClse(t) \/ SendClseFinal(t) \/ Ack(t) \/ Rd1(t) \/ Rd23(t) \/ Rd4(t) \/ Return(t) \/ Raise(t)
 DevNext == DevRecv \/ \E l \in 1..Cardinality(Threads) : DevSend(l)
 \* a thread whose program is open-only is finished once the OKAY arrived (Resolve gives "ret"); a finished system stutters
 AllDone == \A t \in Threads : th[t].pc = "done"
 Terminated == AllDone /\ UNCHANGED vars
 Next == HostNext \/ DevNext \/ Terminated
 Spec == Init /\ [][Next]_vars
-FairSpec == Spec /\ \A t \in Threads : WF_vars(Alloc(t) \/ SendOpen(t) \/ SendWrte(t) \/ SendClse(t) \/ SendClseFinal(t) \/ Ack(t) \/ Rd1(t) \/ Rd23(t) \/ Rd4(t) \/ Return(t))
+FairSpec == Spec /\ \A t \in Threads : WF_vars(Alloc(t) \/ SendOpen(t) \/ SendWrte(t) \/ SendClse(t) \/ SendClseFinal(t) \/ Ack(t) \/ Rd1(t) \/ Rd23(t) \/ Rd4(t) \/ Return(t) \/ Raise(t))
                  /\ WF_vars(DevNext)
 
 (* ---------------------------------------------------------------- properties *)
@@ -198,11 +207,11 @@ EventuallyDone == <>AllDone
 P(p) == [cmd |-> p.cmd, a0 |-> p.a0, a1 |-> p.a1, d |-> p.d]
 PS(w) == [i \in 1..Len(w) |-> P(w[i])]
 St(th_, nid, tl, st, w1, w2, dv) ==
-   [th |-> [t \in Threads |-> [pc |-> th_[t].pc, lid |-> th_[t].lid, rid |-> th_[t].rid, got |-> th_[t].got, wait |-> th_[t].wait]],
+   [th |-> [t \in Threads |-> [pc |-> th_[t].pc, ip |-> th_[t].ip, lid |-> th_[t].lid, rid |-> th_[t].rid, got |-> th_[t].got, wait |-> th_[t].wait, buf |-> th_[t].buf, cur |-> P(th_[t].cur)]],
     nid |-> nid, tlock |-> tl,
     store |-> {[a0 |-> k[1], a1 |-> k[2], q |-> PS(st[k])] : k \in DOMAIN st},
     d2h |-> PS(w1), h2d |-> PS(w2),
-    dev |-> {[l |-> l, st |-> dv[l].st, okq |-> dv[l].okq, wait |-> dv[l].wait, outq |-> Len(dv[l].outq)] : l \in DOMAIN dv}]
+    dev |-> {[l |-> l, st |-> dv[l].st, okq |-> dv[l].okq, wait |-> dv[l].wait, outq |-> Len(dv[l].outq), nwr |-> dv[l].nwr, sentn |-> dv[l].sentn] : l \in DOMAIN dv}]
 View == <<th, nextId, tLock, store, d2h, h2d, dev, mon>>
 EmitEdge == act'.who = "init" \/ PrintT(<<"EDGE", ToJson([from |-> St(th, nextId, tLock, store, d2h, h2d, dev), act |-> act',
                                                         to |-> St(th', nextId', tLock', store', d2h', h2d', dev')])>>)
